@@ -284,6 +284,34 @@ def eval_findings(n, pattern, nfiles, full, with_repo, fmt):
     return out
 
 
+def eval_render_sequence(n, seq):
+    """ONE Report object rendered several times (format, full) in a row: every rendering must be what a fresh Report gives"""
+    from codelimit.common.report import format_markdown, format_text
+    from codelimit.common.report.Report import Report
+
+    def mk():
+        lengths = findings_lengths(n, "distinct")
+        cb = harness.codebase([("src/f0.py", "Python", lengths + [30, 7]), ("src/f1.py", "Python", [45])])
+        cb.aggregate()
+        return Report(cb)
+
+    def render(rep, fmt, full):
+        if fmt == "text":
+            return harness.render(format_text.print_findings, rep, full, console_pos=0)
+        return harness.render(format_markdown.print_findings, rep, full, console_pos=1)
+
+    out = []
+    shared = mk()
+    for i, (fmt, full) in enumerate(seq):
+        got = render(shared, fmt, full)
+        want = render(mk(), fmt, full)
+        if got != want:
+            out.append(("rendering-depends-on-earlier-renderings", {"format": fmt, "full": full},
+                        f"step {i} of {seq}: {len(got.splitlines())} lines, a fresh report gives {len(want.splitlines())}"))
+            break
+    return out
+
+
 # ---------------------------------------------------------------------------------------
 # through the commands, on a real cache
 # ---------------------------------------------------------------------------------------
@@ -348,6 +376,14 @@ def _block(block, agg):
             agg.transitions += 1
             for k, sig, d in viol:
                 agg.violation(k, sig, case, d)
+    elif kind == "sequence":
+        for n, seq in payload:
+            case = {"part": "sequence", "n": n, "seq": [list(x) for x in seq]}
+            viol = eval_render_sequence(n, seq)
+            agg.case(case, True, "seq", sample=False)
+            agg.transitions += len(seq)
+            for k, sig, d in viol:
+                agg.violation(k, sig, case, d)
     else:
         for tree_id in payload:
             case = {"part": "commands", "tree": tree_id}
@@ -360,6 +396,8 @@ def _block(block, agg):
 def replay(case):
     if case["part"] == "overview":
         viol = eval_pair(case["current"], case["previous"])
+    elif case["part"] == "sequence":
+        viol = eval_render_sequence(case["n"], [tuple(x) for x in case["seq"]])
     elif case["part"] == "findings":
         viol = eval_findings(case["n"], case["pattern"], case["files"], case["full"], case["repo"], case["format"])
     else:
@@ -368,13 +406,15 @@ def replay(case):
 
 
 def run(ctx: core.Ctx):
-    langs = LANGS[: ctx.pick(2, 3)]
+    langs = LANGS  # a language present only in the PREVIOUS report needs >= 3 languages to coexist with a totals row
     ctx.bounds = {"languages": langs, "totals_variants(files,functions,loc,hard,unmaintainable)": VARIANTS, "findings_n": "0..13",
                   "findings_patterns": ["distinct", "tied", "mixed"], "files": [1, 2, 3]}
     ctx.rule = ("overview case = (current assignment, previous assignment or none), assignment = per language absent or one of 4 totals variants; "
                 "each rendered in text and Markdown (transitions = renders). findings case = (n in 0..13, length pattern, #files, full, repository, "
                 "format). Non-trivial: overview with a previous report and >= 1 language / findings with n > 0.")
-    options = [None] + list(range(len(VARIANTS)))
+    options = [None] + list(range(len(VARIANTS)))[: ctx.pick(2, len(VARIANTS))]
+    if ctx.quick:
+        options = [None, 0, 2]
     assigns = []
     for combo in itertools.product(options, repeat=len(langs)):
         assigns.append({l: v for l, v in zip(langs, combo) if v is not None})
@@ -385,5 +425,9 @@ def run(ctx: core.Ctx):
               for full in (False, True) for repo in (False, True) for fmt in ("text", "markdown")]
     step = max(1, len(fcases) // ctx.workers + 1)
     blocks += [("findings", fcases[i:i + step]) for i in range(0, len(fcases), step)]
+    renders = [(f, full) for f in ("text", "markdown") for full in (False, True)]
+    seqs = [(n, list(sq)) for n in (9, 10, 11, 13) for k in (2, 3) for sq in itertools.product(renders, repeat=k)]
+    step = max(1, len(seqs) // ctx.workers + 1)
+    blocks += [("sequence", seqs[i:i + step]) for i in range(0, len(seqs), step)]
     blocks.append(("commands", ["two-langs", "many", "one"]))
     ctx.run_blocks(_block, blocks)
